@@ -73,6 +73,14 @@ func mkAmi(ip []byte, port int, id []byte) amiT {
 	return a
 }
 
+func knStr(kn k_nearest_nodes.Type) string {
+	var contents []string
+	kn.Range(func(e k_nearest_nodes.Elem) {
+		contents = append(contents, fmt.Sprintf("%s:%d:%s:%v", hx(e.Addr.Addr().AsSlice()), e.Addr.Port(), hx(e.ID[:]), e.Data))
+	})
+	return strings.Join(contents, " ")
+}
+
 func metricEngine(seed uint64, tier string, _ []string) {
 	r := &rng{s: seed}
 	scale := 1
@@ -192,6 +200,8 @@ func metricEngine(seed uint64, tier string, _ []string) {
 		tg := pick()
 		set := containers.NewImmutableAddrMaybeIdsByDistance(int160.FromByteArray(arr20(tg)))
 		var ops []string
+		ssVersions := []containers.AddrMaybeIdsByDistance{set}
+		ssLens := []int{0}
 		m := 1 + r.intn(14)
 		for j := 0; j < m; j++ {
 			e := pool[r.intn(len(pool))]
@@ -204,6 +214,14 @@ func metricEngine(seed uint64, tier string, _ []string) {
 			} else {
 				set = set.Add(e)
 				ops = append(ops, "+"+amiStr(e))
+			}
+			ssVersions = append(ssVersions, set)
+			ssLens = append(ssLens, set.Len())
+		}
+		for vi := range ssVersions {
+			if ssVersions[vi].Len() != ssLens[vi] {
+				emit("oracle C18 sorted-set-value-changed-by-later-operation target=%s after-op=%d was-len=%d now-len=%d", hx(tg), vi+1, ssLens[vi], ssVersions[vi].Len())
+				break
 			}
 		}
 		var contents []string
@@ -222,6 +240,8 @@ func metricEngine(seed uint64, tier string, _ []string) {
 		kn := k_nearest_nodes.New(int160.FromByteArray(arr20(tg)), k)
 		m := r.intn(24)
 		var pushes []string
+		versions := []k_nearest_nodes.Type{kn}
+		versionStr := []string{knStr(kn)}
 		type pk struct {
 			id   [20]byte
 			addr string
@@ -239,6 +259,22 @@ func metricEngine(seed uint64, tier string, _ []string) {
 			key := krpc.NodeInfoAddrPort{ID: arr20(id), Addr: krpc.NodeAddrPort{AddrPort: netip.AddrPortFrom(addr, uint16(port))}}
 			kn = kn.Push(k_nearest_nodes.Elem{Key: key, Data: j})
 			pushes = append(pushes, fmt.Sprintf("%s:%d:%s:%d", hx(ip), port, hx(id), j))
+			versions = append(versions, kn)
+			versionStr = append(versionStr, knStr(kn))
+			if r.intn(4) == 0 {
+				// a branch off an older version: Push returns a new value, the one it was called on is unchanged
+				b := versions[r.intn(len(versions))]
+				bid := pick()
+				b = b.Push(k_nearest_nodes.Elem{Key: krpc.NodeInfoAddrPort{ID: arr20(bid), Addr: key.Addr}, Data: 1000 + j})
+				_ = b.Len()
+			}
+		}
+		// every value ever returned still holds what it held when it was returned
+		for vi := range versions {
+			if got := knStr(versions[vi]); got != versionStr[vi] {
+				emit("oracle C18 knear-value-changed-by-later-push target=%s k=%d after-push=%d of %d was=[%s] now=[%s]", hx(tg), k, vi+1, len(versions), versionStr[vi], got)
+				break
+			}
 		}
 		var contents []string
 		kn.Range(func(e k_nearest_nodes.Elem) {
